@@ -346,3 +346,67 @@ class OptionsDefaultsAreNotShared(Contract):
 
     ensures = [prop("fresh-options-have-the-defaults-again", lambda a, old, r: r[0] == r[1]),
                prop("instances-do-not-share-their-lists", lambda a, old, r: not r[2])]
+
+
+# -- the per-lookup memo of the GSUB glyph closure ------------------------------------------------------
+
+class _RecordingSubTable:
+    def __init__(self):
+        self.calls = []
+
+    def closure_glyphs(self, s, cur_glyphs):
+        self.calls.append((frozenset(s.glyphs), frozenset(cur_glyphs)))
+
+
+@contract
+class LookupClosureMemo(Contract):
+    """Lookup.closure_glyphs keeps, per lookup, the position glyphs it was already applied to -
+    but only for the glyph set as it was then.  For EVERY history of calls (position glyph sets
+    over three glyphs, the glyph set growing between calls or not): after each call the
+    subtables have been run on the current glyph set for a superset-union of the requested
+    position glyphs - a call made after the glyph set has grown is never answered from the memo."""
+    module = "fontTools.ttLib.tables.otTables"
+    qualname = "Lookup.closure_glyphs"
+    imports = ("fontTools.subset",)
+    props = ("C07",)
+    shadow_mode = "real"
+    level = "PF"
+    variants = ("histories-of-3",)
+
+    def args(self, S, variant):
+        return dict(_n=3)
+
+    def call(self, f, a):
+        import itertools
+        import fontTools.subset  # noqa: F401
+        from fontTools.ttLib.tables import otTables as ot
+        universe = ("f", "i", "l")
+        curs = [frozenset(c) for k in (1, 2) for c in itertools.combinations(universe, k)] + [None]
+        bad, count = [], 0
+        for hist in itertools.product(itertools.product(curs, (False, True)), repeat=a._n):
+            class _S:
+                pass
+            s = _S()
+            s.glyphs = {"f", "i"}
+            s._doneLookups = {}
+            lk = ot.Lookup()
+            st = _RecordingSubTable()
+            lk.SubTable = [None, st]
+            grow = iter(("l", "x", "y"))
+            for step, (cur, grows) in enumerate(hist):
+                if grows:
+                    s.glyphs.add(next(grow))
+                f(lk, s, cur)
+                count += 1
+                now = frozenset(s.glyphs)
+                want = now if cur is None else cur
+                seen = set()
+                for g, c in st.calls:
+                    if g == now:
+                        seen |= c
+                if not want <= seen:
+                    bad.append((hist[:step + 1], sorted(want), sorted(seen)))
+                    break
+        return count, bad
+
+    ensures = [prop("subtables-ran-on-the-current-glyph-set-for-the-requested-positions", lambda a, old, r: r[0] > 0 and not r[1])]
